@@ -7,7 +7,9 @@ cd "$(dirname "$0")"
 PROP="$1"; TIER="${2:-${VERIF_TIER:-quick}}"
 export VERIF_TIER="$TIER"
 SEED="${VERIF_SEED:-1}"
-mkdir -p evidence replays
+EVID="${VERIF_EVIDENCE_DIR:-evidence}"
+RPL="${VERIF_REPLAY_DIR:-/verif/replays}"
+mkdir -p "$EVID" "$RPL"
 FR="$(mktemp -d "${TMPDIR:-/tmp}/blochsim.frag.XXXXXX")"
 trap 'rm -rf "$FR"' EXIT
 
@@ -28,10 +30,10 @@ for sl in "${slices[@]}"; do
   set -- $sl
   engine="$1"; flavour="$2"
   bin="$(./build.sh "$engine" "$flavour")" || { echo "build of $engine/$flavour failed" >&2; exit 2; }
-  "$bin" --property "$PROP" --tier "$TIER" --seed "$SEED" --flavour "$flavour" --fragment "$FR/$i.json"
+  "$bin" --property "$PROP" --tier "$TIER" --seed "$SEED" --flavour "$flavour" --fragment "$FR/$i.json" --replay-dir "$RPL"
   r=$?
   if [ $r -eq 1 ]; then rc=1; elif [ $r -ne 0 ] && [ $rc -ne 1 ]; then rc=2; fi
   i=$((i+1))
 done
-python3 tools/merge_evidence.py "$PROP" "$TIER" "$SEED" "$FR" evidence/"$PROP".json || { [ $rc -eq 0 ] && rc=2; }
+python3 tools/merge_evidence.py "$PROP" "$TIER" "$SEED" "$FR" "$EVID/$PROP.json" || { [ $rc -eq 0 ] && rc=2; }
 exit $rc
